@@ -321,23 +321,25 @@ def cli_ledger_jobs(prop, tier, rnd):
             if good:
                 pools[s_] = good
     jobs = []
+    L = len(names)
     for i in range(48 if q else 400):
-        assets = {f"B{j + 1}": rnd.choice(pools[names[(i + j) % len(names)]]) for j in range(1 + (i % 3 > 0))}      # two runs in three process two assets in one process
-        country = ["us", "generic", "us", "es", "jp", "ie"][i % 6] if prop == "C05" else ["us", "generic"][i % 2]
+        # (slice, number of assets, country, method / schedule and window vary on different strides of i, so that each meets the others)
+        assets = {f"B{j + 1}": rnd.choice(pools[names[(i + j) % L]]) for j in range(1 + ((i // L) % 3 > 0))}      # two runs in three process two assets in one process
+        country = ["us", "generic", "us", "es", "jp", "ie"][(i // 4) % 6] if prop == "C05" else ["us", "generic"][(i // 4) % 2]
         method, sched = None, None
         if country in ("us", "generic"):
-            if i % 3 == 0:
+            if i % 4 == 3:
                 y = min_year(assets)
-                sched = [[1970 if k == 0 else y + k, rnd.choice(METHODS)] for k in range(2 + i % 3)]
+                sched = [[1970 if k == 0 else y + k, rnd.choice(METHODS)] for k in range(2 + (i // 4) % 3)]
             else:
-                method = METHODS[(i // 3) % 4]
-        shape = {"C09": ["to", "none"], "C10": ["from", "fromto", "to"], "C06": ["to", "none", "from"], "C07": ["to", "none"]}.get(prop, ["none", "to", "from", "none", "fromto"])[i % {"C09": 2, "C07": 2, "C10": 3, "C06": 3}.get(prop, 5)]
+                method = METHODS[(i % 4 + i // 4) % 4]
+        shape = {"C09": ["to", "none"], "C10": ["from", "fromto", "to"], "C06": ["to", "none", "from"], "C07": ["to", "none"]}.get(prop, ["none", "to", "from", "none", "fromto"])[(i + i // 4 + i // 12) % {"C09": 2, "C07": 2, "C10": 3, "C06": 3}.get(prop, 5)]
         if country == "jp" and shape == "fromto":
             shape = "from"
         job = make_job(assets, country, rnd, shape=shape, lang="en" if country == "jp" else None, method=method, sched=sched)
         job["observe"] = ["computed"]
         if country == "generic":
-            job["ltcg"] = [365, 1, 366, 30][(i // 2) % 4]
+            job["ltcg"] = [365, 1, 366, 30][(i // 8) % 4]
         job["tag"] = f"cli:{country}:{shape}:{'sched' if sched else (method or 'default')}"
         jobs.append(job)
     if prop == "C09":
